@@ -38,6 +38,7 @@ package httpcache
 //@   assigns upstreamCalls, lastUpstreamStatus, lastUpstreamFailed, now
 //@   ensures upstreamCalls == old(upstreamCalls) + 1                                          # name: one-upstream-call
 //@   ensures (resp != nil && resp.Header != nil && err == nil) || (resp == nil && err != nil) # name: result-shape
+//@   ensures resp != nil ==> fresh(resp) && fresh(resp.Header)                                # name: reply-is-fresh-object
 //@   ensures ns(start) >= ns(old(now)) && ns(end) >= ns(start) && ns(now) >= ns(end)          # name: times-ordered
 
 // The synthesised 504 (http.ReadResponse over constant bytes): trusted shape.
@@ -57,16 +58,27 @@ package httpcache
 //@   ensures result0 == stored.Data && result1 == nil                              # name: returns-stored
 //@   ensures upstreamCalls == old(upstreamCalls)                                    # name: no-upstream
 
+// The background revalidation contacts the origin: it must never be started for an
+// only-if-cached request (C18). Its body (goroutine, channel, select) is outside the
+// supported subset; only its precondition is used, at the `go` statement that spawns it.
+//@ func (*transport).backgroundRevalidate
+//@   trusted
+//@   property C18 C20
+//@   requires wired(r) && req != nil && stored != nil                      # name: well-formed
+//@   requires !reqOIC(req)                                                 # name: not-only-if-cached   props: C18
+//@   assigns *
+
 //@ func (*transport).handleStaleWhileRevalidate
-//@   property C01 C02 C20
+//@   property C01 C02 C18 C20
 //@   requires wired(r) && req != nil && stored != nil && stored.Data != nil && stored.Data.Header != nil && freshness != nil
+//@   requires !reqOIC(req)                                                 # name: not-only-if-cached   props: C18
 //@   assigns *
 //@   ensures result0 == stored.Data && result1 == nil                              # name: returns-stored
 //@   ensures upstreamCalls == old(upstreamCalls)                                    # name: no-upstream-in-foreground
 
 //@ func (*transport).handleCacheHit
 //@   property C01 C02 C18
-//@   requires wired(r) && req != nil && stored != nil && stored.Data != nil && stored.Data.Header != nil
+//@   requires wired(r) && req != nil && req.URL != nil && stored != nil && stored.Data != nil && stored.Data.Header != nil
 //@   let tq = old(ccText(req.Header))
 //@   let ts = old(ccText(stored.Data.Header))
 //@   let hq = dirsHas(tq)
@@ -86,3 +98,30 @@ package httpcache
 //@   ensures served ==> !(ccValidA(hq, vq, "max-age") && A0 > ccDurA(vq, "max-age") && !maxStaleOK(A0, Lreq, hq, vq))   # name: request-max-age-validated   props: C02
 //@   ensures hq["only-if-cached"] ==> upstreamCalls == old(upstreamCalls)                # name: only-if-cached-no-network     props: C18
 //@   ensures (result0 != nil) != (result1 != nil)                                        # name: result-shape   props: C10
+
+//@ spec func reqOIC(req *http.Request) bool = dirsHas(ccText(req.Header))["only-if-cached"]
+
+//@ func (*transport).handleCacheMiss
+//@   property C18 C10
+//@   requires wired(r) && req != nil
+//@   assigns *
+//@   ensures (result0 != nil) != (result1 != nil)                                          # name: result-shape   props: C10
+//@   ensures old(reqOIC(req)) ==> upstreamCalls == old(upstreamCalls) && result0 != nil && result0.StatusCode == 504   # name: only-if-cached-504   props: C18
+//@   ensures !old(reqOIC(req)) ==> upstreamCalls == old(upstreamCalls) + 1                 # name: one-upstream-call
+//@   ensures result1 != nil ==> lastUpstreamFailed                                         # name: error-only-from-origin   props: C10
+//@   ensures result0 != nil ==> result0.Header != nil                                      # name: header-non-nil
+
+//@ func (*transport).handleUnrecognizedMethod
+//@   property C18 C10 C07
+//@   requires wired(r) && req != nil && req.URL != nil
+//@   assigns *
+//@   ensures (result0 != nil) != (result1 != nil)                                          # name: result-shape   props: C10
+//@   ensures old(reqOIC(req)) ==> upstreamCalls == old(upstreamCalls)                      # name: only-if-cached-no-network   props: C18
+//@   ensures result1 != nil ==> lastUpstreamFailed                                         # name: error-only-from-origin   props: C10
+
+//@ func (*transport).RoundTrip
+//@   property C18 C10
+//@   requires wired(r) && req != nil && req.URL != nil
+//@   assigns *
+//@   ensures (result0 != nil) != (result1 != nil)                                          # name: result-shape   props: C10
+//@   ensures old(reqOIC(req)) ==> upstreamCalls == old(upstreamCalls)                      # name: only-if-cached-no-network   props: C18
